@@ -151,12 +151,13 @@ theorem NsMgr.addNs_inv2 {m : NsMgr} (h : m.Inv2) (n : Ns) (hn : n.pfx ≠ "") :
               · exact Or.inr rfl)
           exact this
 
-theorem NsMgr.setDefault_inv2 {m : NsMgr} (h : m.Inv2) (u : String) : (m.setDefault u).Inv2 := by
-  unfold NsMgr.setDefault
-  have hget_old : ∀ k, k ≠ "" → (m.tbl.set "" ⟨"", u⟩).get? k = m.tbl.get? k :=
+/-- making `d` (empty prefix) the default namespace and binding it under "" keeps `Inv2` -/
+theorem inv2_set_default_ns {m : NsMgr} (h : m.Inv2) (d : Ns) (hd : d.pfx = "") :
+    NsMgr.Inv2 { m with dflt := some d, tbl := m.tbl.set "" d } := by
+  have hget_old : ∀ k, k ≠ "" → (m.tbl.set "" d).get? k = m.tbl.get? k :=
     fun k hk => Tbl.get?_set_ne _ _ _ _ hk
   have keep : ∀ e : Ns, (m.tbl.get? e.pfx = some e ∧ e.pfx ≠ "") →
-      ((m.tbl.set "" ⟨"", u⟩).get? e.pfx = some e ∧ e.pfx ≠ "") := by
+      ((m.tbl.set "" d).get? e.pfx = some e ∧ e.pfx ≠ "") := by
     intro e ⟨he, hne⟩
     exact ⟨by rw [hget_old _ hne]; exact he, hne⟩
   refine ⟨Tbl.nodup_set _ _ h.nodup, ?_, ?_, ?_, ?_, ?_, ?_⟩
@@ -164,33 +165,29 @@ theorem NsMgr.setDefault_inv2 {m : NsMgr} (h : m.Inv2) (u : String) : (m.setDefa
     by_cases hk : k = ""
     · subst hk
       simp only [Tbl.get?_set_self, Option.some.injEq] at hkv
-      rw [← hkv]
+      rw [← hkv]; exact hd
     · simp only [hget_old k hk] at hkv
       exact h.key_pfx k v hkv
   · intro n e hne; exact keep e (h.rename_tbl n e hne)
   · intro x e hne; exact keep e (h.uriMap_tbl x e hne)
   · intro p e hne; exact keep e (h.pren_tbl p e hne)
-  · intro d hd
-    simp only [Option.some.injEq] at hd
-    rw [← hd]
+  · intro d' hd'
+    simp only [Option.some.injEq] at hd'
+    rw [← hd']; exact hd
   · intro e he
     simp only [Tbl.get?_set_self, Option.some.injEq] at he
     simp [he]
+
+theorem NsMgr.setDefault_inv2 {m : NsMgr} (h : m.Inv2) (u : String) : (m.setDefault u).Inv2 := by
+  unfold NsMgr.setDefault
+  exact inv2_set_default_ns h ⟨"", u⟩ rfl
 
 theorem NsMgr.validQ_inv2 {m : NsMgr} (h : m.Inv2) (q : QName) : (m.validQ q).1.Inv2 := by
   unfold NsMgr.validQ
   split
   · next hp =>
     split
-    · next hd =>
-      refine ⟨h.nodup, h.key_pfx, h.rename_tbl, h.uriMap_tbl, h.pren_tbl, ?_, ?_⟩
-      · intro d hd'
-        simp only [Option.some.injEq] at hd'
-        rw [← hd']; exact hp
-      · intro e he
-        have := h.empty_key e he
-        rw [hd] at this
-        cases this
+    · exact inv2_set_default_ns h q.ns hp
     · split
       · exact h
       · exact NsMgr.addNs_inv2 h _ (by simp)
@@ -267,12 +264,13 @@ theorem NsMgr.addNs_stable {m : NsMgr} (n : Ns) {p : String} {e : Ns}
           simp only []
           rw [Tbl.get?_set_ne _ _ _ _ hne]; exact he
 
-theorem NsMgr.validQ_stable {m : NsMgr} (q : QName) {p : String} {e : Ns}
+theorem NsMgr.validQ_stable {m : NsMgr} (q : QName) {p : String} {e : Ns} (hp : p ≠ "")
     (he : m.tbl.get? p = some e) : (m.validQ q).1.tbl.get? p = some e := by
   unfold NsMgr.validQ
   split
   · split
-    · exact he
+    · simp only []
+      rw [Tbl.get?_set_ne _ _ _ _ hp]; exact he
     · split
       · exact he
       · exact NsMgr.addNs_stable _ he
